@@ -44,12 +44,25 @@ def one(ctx, drv, i, prof, case):
             c2 = dict(c2, cfg=dict(case['cfg'], allow_unknown=w[0]))
             jcase['allow_unknown_shorthand'] = codec.enc_val(w[0])
             jcase['allow_unknown_given_by'] = au_by
+    entry = rng.choice(['constructor', 'constructor', 'setter', 'item assignment', 'update'])
+    jcase['entry'] = entry
     try:
         if au_by == 'assignment':
             short_v = real.make_validator(dict(c2, cfg={k: v for k, v in c2['cfg'].items() if k != 'allow_unknown'}))
             short_v.allow_unknown = copy.deepcopy(c2['cfg']['allow_unknown'])
-        else:
+        elif entry == 'constructor':
             short_v = real.make_validator(c2)
+        else:
+            # the shorthand form handed over through another entry point means the same
+            short_v = real.cls_of(c2)({}, **copy.deepcopy(c2.get('cfg', {})))
+            if entry == 'setter':
+                short_v.schema = copy.deepcopy(short)
+            elif entry == 'update':
+                short_v.schema.update(copy.deepcopy(short))
+            else:
+                for k in short:
+                    short_v.schema[k] = copy.deepcopy(short[k])
+        ctx.dist('entry', entry)
     except SchemaError as e:
         ctx.fail('C15 oracle: the shorthand form is rejected although the canonical form is accepted (%s)'
                  % (applied[:3],), jcase, detail=str(e)[:300])
